@@ -58,7 +58,7 @@ class _alc:
 
 @spec(A + "assert_picture_number_incremented_as_expected")
 class _apn:
-    args = {"state": STATE, "picture_number_offset": "opaque:offset"}
+    args = {"state": STATE, "picture_number_offset": "opaque"}
     requires = ['has(state, "picture_number") and has(state, "picture_coding_mode") and has(state, "_num_pictures_in_sequence")',
                 'has(state, "_last_picture_number") == has(state, "_last_picture_number_offset")']
     modifies = ['state["_last_picture_number"]', 'state["_last_picture_number_offset"]', 'state["_num_pictures_in_sequence"]']
@@ -67,7 +67,7 @@ class _apn:
         "EarliestFieldHasOddPictureNumber": 'state["picture_coding_mode"] == 1 and state["_num_pictures_in_sequence"] % 2 == 0 and state["picture_number"] % 2 == 1',
     }
     ensures = [
-        'has(state, "_last_picture_number") and has(state, "_last_picture_number_offset")',
+        'has(state, "_last_picture_number") and has(state, "_last_picture_number_offset") and has(state, "_num_pictures_in_sequence")',
         'state["_last_picture_number"] == state["picture_number"]',
         'state["_num_pictures_in_sequence"] == old(state["_num_pictures_in_sequence"]) + 1',
         # C01: accepted exactly when the numbering rule holds
